@@ -37,7 +37,7 @@ PLANS = {
         "floor": 2000,
     },
     "C05": {
-        "quick": [sess("alloc", "C05", 500, 30), sess("rootfill", "C05", 200, 10), sess("dirfill", "C05", 150, 15), job("c05cycle")],
+        "quick": [sess("alloc", "C05", 500, 30), sess("rootfill", "C05", 200, 10), sess("dirfill", "C05", 150, 12), job("c05cycle"), sess("alloc", "C05", 150, 12, args={"builder": 1, "nolibwalk": 1})],
         "thorough": [sess("alloc", "C05", 6000, 420), sess("rootfill", "C05", 3000, 120), sess("dirfill", "C05", 3000, 180), job("c05cycle", timeout=3600), sess("alloc", "C05", 2000, 120, args={"builder": 1, "nolibwalk": 1})],
         "floor": 2000,
     },
